@@ -29,6 +29,7 @@ import (
 	"fmt"
 	"hash/fnv"
 	"os"
+	"regexp"
 	"runtime/pprof"
 	"sort"
 	"time"
@@ -208,6 +209,8 @@ func build(c *caseSpec) *built {
 	return b
 }
 
+var digits = regexp.MustCompile(`[0-9]+`)
+
 type diff struct {
 	kind string
 	text string
@@ -283,7 +286,7 @@ func feedOnce(c *caseSpec, b *built, seg wsgen.Seg) (string, *wsgen.FeedResult) 
 		return "decoder: panic " + wsgen.PanicSig(r.Panics[0]) + "|" + r.Panics[0], r
 	}
 	if r.Err != nil {
-		return fmt.Sprintf("decoder: parse-error err=%q|Parse call %d returned %v", r.Err.Error(), r.ErrCall, r.Err), r
+		return fmt.Sprintf("decoder: parse-error err=%q|Parse call %d returned %v", digits.ReplaceAllString(r.Err.Error(), "N"), r.ErrCall, r.Err), r
 	}
 	if r.ImplClosed {
 		return "decoder: conn-closed|the receiver closed the connection", r
@@ -428,6 +431,9 @@ func runItem(tier string, c *caseSpec, p *vkit.Part, seqPart bool) {
 	t0 := time.Now()
 	defer func() {
 		k := "us_partA_F" + fmt.Sprint(c.F)
+		if c.F > 32768 {
+			k = "us_partA2"
+		}
 		if seqPart {
 			k = "us_partBCD"
 		}
@@ -599,6 +605,34 @@ func run(tier string, sh *vkit.Shard, p *vkit.Part) {
 		}
 	}
 
+	// ---- part A2: frame limits above 64 KiB, so that the sender emits (and the receiver parses)
+	// the 64-bit length form; only lengths above 32768 add anything here
+	for _, F := range []int{65535, 65536, 131072} {
+		set := map[int]bool{}
+		var lens []int
+		for _, l := range []int{65535, 65536, 65537, F - 1, F, F + 1, 2*F + 1} {
+			if !set[l] {
+				set[l] = true
+				lens = append(lens, l)
+			}
+		}
+		sort.Ints(lens)
+		for _, n := range lens {
+			for _, c2s := range []bool{true, false} {
+				for _, typ := range []byte{wsgen.OpText, wsgen.OpBinary} {
+					for _, cs := range compSettings() {
+						for _, class := range wsgen.Classes {
+							if !thorough && ((cs.on && cs.level != 1) || (class != "ramp" && class != "lowcomp")) {
+								continue // quick: compression {off, 1} x content {ramp, lowcomp}
+							}
+							item(&caseSpec{C2S: c2s, F: F, Comp: cs.on, Level: cs.level, Msgs: []msgSpec{{typ, n, class}}}, false)
+						}
+					}
+				}
+			}
+		}
+	}
+
 	// ---- part B: sequences of 1-3 messages with a control frame between them
 	seqF := []int{125}
 	if thorough {
@@ -694,7 +728,7 @@ func main() {
 	}
 	vkit.Main(&vkit.Spec{
 		Property: "C12", Level: "model_checking",
-		Rule: "one case = (sender role, frame limit F, compression setting, message list, control-frame placement) x one segmentation of the sender's real wire bytes fed to a real receiver Conn.Parse; enumerated: F in {1,2,125,126,1000,32768} x lengths {0,1,2,125,126,127,65535,65536,F-1,F,F+1,2F,2F+1} x {text,binary} x both roles x {off, levels -2..9} x 4 content classes; all sequences of 1-3 messages over a 6-message subset with ping/pong between or spliced inside the next fragmented message; segmentations: one piece, every single cut (wires <= 2 KiB; structural cuts otherwise), double cuts (all for wires <= 48 B, structural pairs otherwise), byte-at-a-time (wires <= 4 KiB), fixed chunks for long wires. A case is non-trivial when the wire has more than one frame, is compressed, is longer than 127 bytes or was fed in more than one Parse call. states = distinct private parser states after the Parse calls of the feed, transitions = Parse calls.",
+		Rule: "one case = (sender role, frame limit F, compression setting, message list, control-frame placement) x one segmentation of the sender's real wire bytes fed to a real receiver Conn.Parse; enumerated: F in {1,2,125,126,1000,32768} x lengths {0,1,2,125,126,127,65535,65536,F-1,F,F+1,2F,2F+1} x {text,binary} x both roles x {off, levels -2..9} x 4 content classes; F in {65535,65536,131072} x lengths {65535,65536,65537,F-1,F,F+1,2F+1} (64-bit length form; quick: compression {off,1} x content {ramp,lowcomp}); all sequences of 1-3 messages over a 6-message subset with ping/pong between or spliced inside the next fragmented message; segmentations: one piece, every single cut (wires <= 2 KiB; structural cuts otherwise), double cuts (all for wires <= 48 B, structural pairs otherwise), byte-at-a-time (wires <= 4 KiB), fixed chunks for long wires. A case is non-trivial when the wire has more than one frame, is compressed, is longer than 127 bytes or was fed in more than one Parse call. states = distinct private parser states after the Parse calls of the feed, transitions = Parse calls.",
 		Assumptions: []string{
 			"text messages carry valid UTF-8 (a text message with invalid UTF-8 is rejected by design, C13)",
 			"the receiver uses an inline executor; CloseAndClean is performed by the harness after a Parse error or once the implementation closed the conn, as the engine does",
